@@ -62,54 +62,4 @@ extern int * g_user_done;
 	g_imm_empty = 0; g_net_exh = 0; g_sel_zero = 0; } while (0)
 #define EV_DISP_AT_START (g_pending == NULL && g_ndo == 0 && g_last_rc == 0 && g_nsel == 0 && g_first_imm == -1 && \
 	g_tmin_called == 0 && g_src_err == 0 && g_imm_empty == 0 && g_net_exh == 0 && g_sel_zero == 0)
-#ifndef VERIF_NATIVE
-/* abstract contracts of the event sources as seen by the dispatcher (weaker than / implied by the module contracts:
-   C04/imm_*, C04/net_get, C04/net_select, C04/timer_min, C04/timer_get) + order monitor */
-#define EV_ABS_IMMGET_CONTRACT \
-	__CPROVER_requires(g_pending == NULL) \
-	__CPROVER_assigns(g_d) \
-	__CPROVER_ensures(__CPROVER_return_value == NULL ? (g_imm_empty == 1 && g_pending == NULL) : \
-	    (__CPROVER_is_fresh(__CPROVER_return_value, EV_RECSZ) && EV_REC(__CPROVER_return_value)->func == ev_cb_model && \
-	     g_pending == __CPROVER_return_value && g_pending_src == 1 && g_imm_empty == __CPROVER_old(g_imm_empty))) \
-	__CPROVER_ensures(g_first_imm == (__CPROVER_old(g_first_imm) == -1 ? (__CPROVER_return_value != NULL ? 1 : 0) : __CPROVER_old(g_first_imm)))
-/* a socket callback may be taken only when the immediate queue is known empty */
-#define EV_ABS_NETGET_CONTRACT \
-	__CPROVER_requires(g_pending == NULL && g_imm_empty) \
-	__CPROVER_assigns(g_d) \
-	__CPROVER_ensures(__CPROVER_return_value == NULL ? (g_pending == NULL && g_net_exh == (__CPROVER_old(g_sel_zero) ? 1 : __CPROVER_old(g_net_exh))) : \
-	    (__CPROVER_is_fresh(__CPROVER_return_value, EV_RECSZ) && EV_REC(__CPROVER_return_value)->func == ev_cb_model && \
-	     g_pending == __CPROVER_return_value && g_pending_src == 2 && g_net_exh == __CPROVER_old(g_net_exh)))
-#define EV_ABS_SELECT_CONTRACT(tv, intr) \
-	__CPROVER_requires(g_pending == NULL) \
-	__CPROVER_requires(tv == NULL || (__CPROVER_r_ok(tv, sizeof(struct timeval)) && tv->tv_sec >= 0 && tv->tv_usec >= 0 && tv->tv_usec < 1000000)) \
-	__CPROVER_assigns(g_d) \
-	__CPROVER_ensures(__CPROVER_return_value == 0 || __CPROVER_return_value == -1) \
-	__CPROVER_ensures(g_nsel == __CPROVER_old(g_nsel) + 1 && g_net_exh == 0 && \
-	    g_sel_zero == ((tv != NULL && tv->tv_sec == 0 && tv->tv_usec == 0) ? 1 : 0) && \
-	    g_sel_tv_first == (__CPROVER_old(g_nsel) == 0 ? tv : __CPROVER_old(g_sel_tv_first)) && \
-	    g_src_err == (__CPROVER_return_value == -1 ? 1 : __CPROVER_old(g_src_err)))
-#define EV_ABS_TMIN_CONTRACT(timeo) \
-	__CPROVER_requires(__CPROVER_rw_ok(timeo, sizeof(struct timeval *)) && g_pending == NULL) \
-	__CPROVER_assigns(*timeo, g_d) \
-	__CPROVER_ensures(__CPROVER_return_value == 0 || __CPROVER_return_value == -1) \
-	__CPROVER_ensures(g_tmin_called == 1 && g_src_err == (__CPROVER_return_value == -1 ? 1 : __CPROVER_old(g_src_err))) \
-	__CPROVER_ensures(__CPROVER_return_value == 0 ==> (g_tmin_ptr == *timeo && (*timeo == NULL || \
-	    (__CPROVER_is_fresh(*timeo, sizeof(struct timeval)) && (*timeo)->tv_sec >= 0 && (*timeo)->tv_usec >= 0 && (*timeo)->tv_usec < 1000000))))
-/* a timer callback may be taken only when the immediate queue is known empty and the socket scan known exhausted
-   after a zero-timeout poll, all since the last callback */
-#define EV_ABS_TGET_CONTRACT(r) \
-	__CPROVER_requires(__CPROVER_rw_ok(r, sizeof(struct eventrec *)) && g_pending == NULL && g_imm_empty && g_net_exh) \
-	__CPROVER_assigns(*r, g_d) \
-	__CPROVER_ensures(__CPROVER_return_value == 0 || __CPROVER_return_value == -1) \
-	__CPROVER_ensures(g_src_err == (__CPROVER_return_value == -1 ? 1 : __CPROVER_old(g_src_err))) \
-	__CPROVER_ensures(__CPROVER_return_value == -1 ==> g_pending == NULL) \
-	__CPROVER_ensures(__CPROVER_return_value == 0 ==> (*r == NULL ? g_pending == NULL : \
-	    (__CPROVER_is_fresh(*r, EV_RECSZ) && EV_REC(*r)->func == ev_cb_model && g_pending == *r && g_pending_src == 3)))
-#else
-#define EV_ABS_IMMGET_CONTRACT
-#define EV_ABS_NETGET_CONTRACT
-#define EV_ABS_SELECT_CONTRACT(tv, intr)
-#define EV_ABS_TMIN_CONTRACT(timeo)
-#define EV_ABS_TGET_CONTRACT(r)
-#endif
 #endif
